@@ -326,6 +326,8 @@ def gen_group_swap_rules(rng, letters, cellvals):
         "grouping gp %s%s %s,%s" % (a, b if b != a else "z", rng.choice(cs), rng.choice(cs)),
         "letsign 56", "capsletter 6",
     ]
+    nv = int(consts().get("NUMVAR", 50))
+    vn, vm = rng.range(0, nv - 1), rng.choice([0, 1, nv - 1, nv // 2])
     cnt = lambda: rng.choice(["", "", "1-2", "1-3", "2", "3", "1-9"])   # a lower bound of 0 is rejected by the compiler
     pool = [
         "noback correct [%%sw%s] %%sw" % cnt(), 'noback correct %%sw%s "%s"' % (cnt(), a), 'noback correct "%s"[%%sw%s]"%s" %%sw' % (a, cnt(), b),
@@ -349,6 +351,12 @@ def gen_group_swap_rules(rng, letters, cellvals):
         "noback pass2 !_%d[@%s] @%s" % (rng.range(1, 3), rng.choice(cs), rng.choice(cs)), 'noback correct !_%d[$l]"%s" *' % (rng.range(1, 2), a),
         "noback context !_%d[$l] ?" % rng.range(1, 3), "nofor pass2 !@%s[@%s] ?" % (rng.choice(cs), rng.choice(cs)), "noback pass2 [@%s]!@%s ?" % (rng.choice(cs), rng.choice(cs)),
         "nofor pass2 [@%s]!$a @%s" % (rng.choice(cs), rng.choice(cs)), "nofor pass4 !_1!@%s[$a] ?" % rng.choice(cs),
+        # multipass variables: counters with comparisons, increments and decrements (the index range comes from NUMVAR)
+        "noback pass2 #%d<2@%s @%s#%d+" % (vn, rng.choice(cs), rng.choice(cs), vn), "noback pass2 #%d>0@%s @%s#%d-" % (vn, rng.choice(cs), rng.choice(cs), vn),
+        "noback pass3 #%d<=1@%s @%s#%d+" % (vm, rng.choice(cs), rng.choice(cs), vm), "noback pass2 #%d>=1@%s ?" % (vn, rng.choice(cs)),
+        "nofor pass2 #%d<3@%s @%s#%d+" % (vm, rng.choice(cs), rng.choice(cs), vm), 'noback correct #%d=0"%s" "%s"#%d=3' % (vn, a, b, vn),
+        'noback correct #%d>1"%s" "%s"#%d-' % (vn, a, b, vn), "nofor pass3 #%d<=2@%s @%s#%d+" % (vn, rng.choice(cs), rng.choice(cs), vn),
+        'noback context #%d<2"%s" @%s#%d+' % (vm, a, rng.choice(cs), vm),
         # match / backmatch: patterns before and behind the characters (their compiled form is an object of its own in the image)
         "match %%a %s%s %%a+ %s" % (a, b, rng.choice(cs)), "backmatch - %s%s - %s" % (b, a, rng.choice(cs)),
         "match %%[^_~]|%%<[%s%s] %s%s %%>[%s]|%%[^_~] %s" % (a, b, a, a, b, rng.choice(cs)), "backmatch [%s%s]+ %s%s (%s|%s)*. %s-%s" % (a, b, b, b, a, b, rng.choice(cs), rng.choice(cs)),
